@@ -22,7 +22,8 @@ RULE = (
     'unchanged, or clamped into [0,len], or land beyond the end like a plain file; the reference is re-synchronised to '
     'tell() and every later read must return exactly content[p:p+n] (never bytes outside the object). Plus exhaustive '
     'enumeration of all programs of length <= 2 (quick) / <= 3 (thorough) over a 34-step alphabet on a 5-byte object for '
-    'every form. Non-trivial = program with a backward or end-relative seek followed by a read on a packed form; distinct '
+    'every form, and of all in-range programs of length <= 2 / <= 3 over a 10-step alphabet of large reads and rewinds on a '
+    '1.25 MiB incompressible object (compressed form spans several 512 KiB decompresser chunks). Non-trivial = program with a backward or end-relative seek followed by a read on a packed form; distinct '
     'by (form, access, program, size class).'
 )
 ASSUMPTIONS = ['out-of-range seeks are not required to behave like BytesIO (real files, BytesIO and the library legitimately differ)']
@@ -35,6 +36,7 @@ def step_strategy():
     return st.one_of(
         st.tuples(st.just('read'), st.sampled_from([0, 1, 2, 3, 7, 100, 4096, 65536, 70000, 300000, 524288, 600000])),
         st.tuples(st.just('read'), st.integers(0, 2000)),
+        st.tuples(st.just('readfrac'), st.integers(1, 15)),
         st.tuples(st.just('readall'), st.just(0)),
         st.tuples(st.just('tell'), st.just(0)),
         st.tuples(st.just('seek0'), st.integers(0, 10**7)),
@@ -50,7 +52,7 @@ def strategy():
         gen.content_desc(3000, 1),
         gen.content_desc(3000, 1),
         gen.content_desc(140000, 2),
-        st.tuples(st.sampled_from(['random', 'text', 'mixed']), st.sampled_from([524287, 524288, 524289, 600001, 1048577]), st.integers(0, 9)).map(list),
+        st.tuples(st.sampled_from(['random', 'random', 'text', 'mixed']), st.sampled_from([524287, 524288, 524289, 600001, 1048577, 1300000]), st.integers(0, 9)).map(list),
     )
     return st.fixed_dictionaries(
         {
@@ -70,6 +72,8 @@ def concretise(step, size, pos):
     kind, x = step
     if kind in ('read', 'readall', 'tell'):
         return (kind, x)
+    if kind == 'readfrac':
+        return ('read', size * x // 16 + x)
     if kind == 'seek0':
         return ('seek', x % (size + 1), 0)
     if kind == 'seek1':
@@ -273,6 +277,71 @@ def exhaustive(ctx, length):
     ctx.stats.extra['exhaustive_programs_run'] = count
 
 
+BOUNDARY_ALPHABET = (
+    ('read', 700000), ('read', 524288), ('read', 100), ('readall', 0), ('tell', 0),
+    ('seek', 0, 0), ('seek', 100, 0), ('seek', 600000, 0), ('seek', -50, 1), ('seek', -10, 2),
+)
+
+
+def boundary_programs(ctx, length):
+    """All programs of up to `length` steps over an alphabet of large reads and rewinds on a 1.25 MiB incompressible object
+    (its compressed form spans several 512 KiB decompresser chunks), every form."""
+    cfg = {'hash_type': 'sha256', 'loose_prefix_len': 2, 'level': 1, 'pack_size_target': 4 * 1024**3}
+    target = ['random', 1310720, 5]
+    count = 0
+    index = 0
+    for form in FORMS:
+        root = new_dir('c07b')
+        cont = None
+        try:
+            cont, key, data, others = build(root, cfg, [['text', 7, 1]], target, [['text', 9, 3]], form)
+            # the compressed forms always get length-3 programs (read across a chunk boundary, rewind, read again)
+            for n in range(1, (3 if form.startswith('packed_compressed') else length) + 1):
+                for program in itertools.product(BOUNDARY_ALPHABET, repeat=n):
+                    index += 1
+                    if not ctx.mine(index):
+                        continue
+                    if ctx.out_of_time():
+                        ctx.stats.skipped_budget += 1
+                        continue
+                    steps = []
+                    pos = 0
+                    valid = True
+                    for step in program:  # keep only programs whose seeks stay in range (judged exactly)
+                        if step[0] == 'seek':
+                            tgt = step[1] + (0, pos, len(data))[step[2]]
+                            if not 0 <= tgt <= len(data):
+                                valid = False
+                                break
+                            pos = tgt
+                        elif step[0] == 'read':
+                            pos = min(len(data), pos + step[1])
+                        elif step[0] == 'readall':
+                            pos = len(data)
+                        steps.append(list(step))
+                    if not valid:
+                        continue
+                    if form == 'packed_compressed':
+                        lp = cont._get_loose_path_from_hashkey(key)  # pylint: disable=protected-access
+                        if os.path.exists(lp):
+                            os.remove(lp)
+                    try:
+                        info = run_access(cont, key, data, others, 'stream', steps, concrete=True)
+                    except Violation as exc:
+                        ctx.stats.violations.append(
+                            {'property': exc.prop, 'sig': exc.sig, 'msg': exc.msg,
+                             'case': {'boundary': True, 'form': form, 'program': steps}, 'log': None}
+                        )
+                        return
+                    count += 1
+                    ctx.stats.record(info['backward_then_read'] and form != 'loose', ['b', form, steps], {'form': form, 'object': target, 'program': steps})
+        finally:
+            if cont is not None:
+                cont.close()
+            rm_dir(root)
+    ctx.stats.label('boundary-programs', count)
+
+
 def shrink(case, exc):
     return ddmin_ops(case, exc, run_case, key='program', budget_s=30)
 
@@ -283,9 +352,24 @@ def run_shard(ctx):
     explore(ctx, strategy(), run_case, n, shrink=shrink)
     if not ctx.stats.violations:
         exhaustive(ctx, 2 if ctx.tier == 'quick' else 3)
+    if not ctx.stats.violations:
+        ctx.set_budget(40 if ctx.tier == 'quick' else 900)
+        boundary_programs(ctx, 2 if ctx.tier == 'quick' else 3)
 
 
 def replay(case):
+    if case.get('boundary'):
+        cfg = {'hash_type': 'sha256', 'loose_prefix_len': 2, 'level': 1, 'pack_size_target': 4 * 1024**3}
+        root = new_dir('c07r')
+        cont = None
+        try:
+            cont, key, data, others = build(root, cfg, [['text', 7, 1]], ['random', 1310720, 5], [['text', 9, 3]], case['form'])
+            run_access(cont, key, data, others, 'stream', case['program'], concrete=True)
+        finally:
+            if cont is not None:
+                cont.close()
+            rm_dir(root)
+        return
     if case.get('exhaustive'):
         cfg = {'hash_type': 'sha256', 'loose_prefix_len': 2, 'level': 1, 'pack_size_target': 4 * 1024**3}
         root = new_dir('c07r')
